@@ -221,6 +221,9 @@ func (s *SubscriptionManager[C, T]) Subscribe(clientID C, topic T) bool {
 
 			// check if the client has reached the max number of subscriptions
 			if s.maxTopicSubscriptionsPerClient != 0 && subscribedTopics.Size() >= s.maxTopicSubscriptionsPerClient {
+				// the new subscription was not counted in the global map yet, so it must not be subtracted from it
+				subscribedTopics.Delete(topic)
+
 				// cleanup the client
 				_, removedTopics, unsubscribedTopics = s.cleanupClientWithoutLocking(clientID)
 				clientDropped = true
